@@ -544,7 +544,7 @@ func matchKnown(c Case, err error) string {
 	// data:base64,xxxx - base64 without the semicolon is no encoding marker, the dependency decodes the payload anyway
 	if i := bytes.IndexByte(in, ','); i > 5 && strings.HasPrefix(err.Error(), "payload changed") {
 		h := strings.ToLower(strings.TrimSpace(string(in[5:i])))
-		if h == "base64" {
+		if strings.HasSuffix(h, "base64") && !strings.Contains(h, ";") {
 			return "C18-base64-without-semicolon"
 		}
 	}
